@@ -36,6 +36,9 @@ CHECKS = [
     chk("C04", "acmed-sim", "exploration",
         "every POST delivered by the transport seam in fault-free families is verified by the model CA's independent JWS verifier (shape, alg<->key, url, nonce ledger, jwk/kid discipline, signature from raw JWK members, fixed-width R||S), across 7 key types, badNonce/expiry answers, nonces on GET or not, EAB, account updates and key roll-overs",
         TRUST + "; judged on fault-free families only", SIM + "; oracle = independent verifier at the simulated peer", "DESIGN.md 7 (C04)"),
+    chk("C05", "acmed-sim", "exploration",
+        "seeded identifier/CA swarm plus every (base, wildcard) challenge-type pair in both declaration orders; oracle = the CA's own RFC 8555 section 8 / RFC 8737 computation from the registered JWK and issued token against the variables the hook process received, the hook type against the configuration entry the authorization is for, and the global event order of hook exit vs challenge POST",
+        TRUST + "; the child process is a stub, everything above spawn() is shipped code", SIM + "; oracle at the simulated CA and process seam", "DESIGN.md 7 (C05)"),
     chk("C06", "acmed-sim", "exploration",
         "seeded renewal histories over up to 4000 virtual days; oracle on virtual arrival times of the next attempt against [max(t_eval, notAfter-renew_delay-random_early_renew), max(t_eval, notAfter-renew_delay)] with an explicit epsilon; lifetimes from expired to 10 years, delays from 0 to beyond the lifetime, SAN subsets/supersets/permutations, removed files, stepped wall clock, jitter at both ends",
         TRUST + "; wall-clock steps only while the daemon is stopped", SIM + "; virtual-time exploration", "DESIGN.md 7 (C06)"),
@@ -45,6 +48,9 @@ CHECKS = [
     chk("C08", "acmed-sim", "fault_enumeration",
         "exhaustive single-error-run grid: every POST position of a two-identifier issuance x 29 error answers x run lengths 1..12, plus never-ready objects at every polling phase; oracle = the CA's per-URL transmission log (count, newest nonce, identical content, outcome)",
         TRUST, SIM + "; exhaustive fault grid", "DESIGN.md 7 (C08)"),
+    chk("C10", "acmed-sim", "exploration",
+        "generated hook tables (multi-typed hooks, nested groups, templates, allow_failure x exit codes incl. signals) x environment tables at four levels colliding with the process environment; an independent expansion model is compared batch by batch with the process seam's records: selection, order, one at a time, stop at first hard failure, argv/stdin/stdout rendering, environment precedence, pre/post x create/edit brackets around storage-seam writes, clean hooks after validated challenges",
+        TRUST + "; the child process is a stub (simhook)", SIM + "; independent trace model over seeded configurations", "DESIGN.md 7 (C10)"),
     chk("C13", "acmed-sim", "exploration",
         "invariant at the storage seam, which performs the real open(2)/chown(2): every file written in seeded create/rewrite/restart histories is stat(2)ed; mode at creation == configured & ~umask, unchanged by rewrites; owner as configured by name or number",
         TRUST + "; runs as root in the sandbox; weakest fit for the technique (no schedule or fault in the statement)", SIM + "; invariant over seeded histories", "DESIGN.md 7 (C13)"),
